@@ -30,7 +30,7 @@ var DefaultAllow = []string{
 
 // AllowFiles: source files of packages that are otherwise reached only through
 // intrinsics whose functions are executed from their real SSA.
-var AllowFiles = map[string]map[string]bool{"fmt": {"scan.go": true}}
+var AllowFiles = map[string]map[string]bool{"fmt": {"scan.go": true, "errors.go": true}}
 
 // AllowFuncs: pure helpers of those packages that the allowed files call.
 var AllowFuncs = map[string]bool{"fmt.parsenum": true, "fmt.tooLarge": true}
